@@ -193,6 +193,27 @@ Definition xclean (r : xrepo) (it : xitem) : bool :=
   | _ => true
   end.
 
+(* the move command with the pre-check of the P45 fix either refuses (repository unchanged) or is the move *)
+Lemma move_cmd45_cases fl o s d r :
+  move_cmd45 fl o s d r = (r, Err) \/ move_cmd45 fl o s d r = move_cmd fl o s d r.
+Proof.
+  unfold move_cmd45. destruct (move_plan s d r) as [oc|l]; [now right|].
+  destruct (fixed_P45 fl && move_uncommitted o r l); [now left|now right].
+Qed.
+
+Lemma move_uncommitted_refused_lemma fl o s d r l :
+  fixed_P45 fl = true -> move_plan s d r = MPlanned l -> move_uncommitted o r l = true ->
+  move_cmd45 fl o s d r = (r, Err).
+Proof. intros F P U. unfold move_cmd45. rewrite P, F, U. reflexivity. Qed.
+
+Lemma move_cmd45_is_move_lemma fl o s d r :
+  (fixed_P45 fl = false \/ forall l, move_plan s d r = MPlanned l -> move_uncommitted o r l = false) ->
+  move_cmd45 fl o s d r = move_cmd fl o s d r.
+Proof.
+  intros H. unfold move_cmd45. destruct (move_plan s d r) as [oc|l] eqn:P; [reflexivity|].
+  destruct H as [F|U]; [rewrite F; reflexivity|]. rewrite (U l eq_refl), andb_false_r. reflexivity.
+Qed.
+
 Lemma xstep_inv fl r it : INV (base r) -> xclean r it = true -> INV (base (fst (do_xitem fl r it))).
 Proof.
   intros [F R] C. pose proof (FI_wf_fs _ F) as Wf. pose proof (RI_wf_recs _ R) as Wr.
@@ -210,7 +231,8 @@ Proof.
     + injection E as <- _. change (fs (base ?x)) with (xfs x). rewrite F1. exact F.
     + destruct (recheck_dests (fold_left (copy_records_one o) plan r) (map cd_path plan)) as [r2 oc2] eqn:RD. injection E as <- _.
       change (fs (base r2)) with (xfs r2). eapply recheck_dests_FI; [|exact RD]. rewrite F1. exact F.
-  - unfold move_cmd. destruct (move_plan s d r) as [oc|l] eqn:PL; [split; auto|].
+  - destruct (move_cmd45_cases fl o s d r) as [E45|E45]; rewrite E45; [split; auto|].
+    unfold move_cmd. destruct (move_plan s d r) as [oc|l] eqn:PL; [split; auto|].
     pose proof (move_plan_is_ok s d r l Wr PL) as OKP.
     destruct (move_apply fl o r l) as [r' oc] eqn:E. cbn [fst].
     split; [|apply wf_recs_RI; eapply move_apply_wf; eauto].
